@@ -632,11 +632,17 @@ def operandConds (c : Ctx) (r : Rule) (p : Parsed) : Nat → List (FormOp × Opt
     let (cs, immPos') := opConds c r p immPos f o
     cs ++ operandConds c r p immPos' rest
 
+/-- the first explicit operand (the destination) is a memory operand in ModRM.rm -/
+def memDestOf (al : List (FormOp × Option Operand)) : Bool :=
+  match al.find? (fun fo => fo.2.isSome) with
+  | some (f, some (.mem _)) => f.role == .rm
+  | _ => false
+
 def usesVvvv (al : List (FormOp × Option Operand)) : Bool :=
   al.any (fun fo => match fo with | (f, some (.reg _ _)) => f.role == .vvvv | _ => false)
 
 /-- stage 7: fields no operand uses must be neutral; EVEX decorations -/
-def tailConds (p : Parsed) (d : Decor) (memOp : Option MemOp) (usedVvvv : Bool) : List Chk :=
+def tailConds (p : Parsed) (d : Decor) (memOp : Option MemOp) (usedVvvv : Bool) (memDest : Bool := false) : List Chk :=
   let vsibM := match memOp with | some m => vsibOf m != .none | Option.none => false
   [⟨!(p.vexKind != 0 && !usedVvvv && p.vvvv != 0), fun _ => s!"7 vvvv = {p.vvvv} but no operand is encoded there"⟩,
    ⟨!(p.vexKind == 4 && !usedVvvv && !vsibM && p.V'), fun _ => "7 V' set but unused"⟩] ++
@@ -645,6 +651,10 @@ def tailConds (p : Parsed) (d : Decor) (memOp : Option MemOp) (usedVvvv : Bool) 
      ⟨p.z == d.z, fun _ => s!"7 z = {p.z}, call has z={d.z}"⟩,
      ⟨p.b == (hasBcst memOp || d.er || d.sae), fun _ => s!"7 b = {p.b}"⟩,
      ⟨!(d.er && p.L != d.rc), fun _ => s!"7 rounding control {p.L}, wanted {d.rc}"⟩,
+     -- SDM 2.7: EVEX gather / scatter need a mask register other than k0 (aaa = 000 is #UD)
+     ⟨!(vsibM && p.aaa == 0), fun _ => "7 EVEX gather/scatter without a mask register (aaa = 000) is undefined"⟩,
+     -- SDM 2.7.4: zeroing-masking is not defined for a memory destination (EVEX.z must be 0)
+     ⟨!(p.z && memDest), fun _ => "7 {z} with a memory destination is undefined"⟩,
      ⟨p.map < 8, fun _ => "7 EVEX map"⟩]
    else
     [⟨!(d.k != 0 || d.z || d.er || d.sae), fun _ => "7 AVX-512 decoration without EVEX"⟩,
@@ -662,7 +672,7 @@ def conds (c : Ctx) (r : Rule) (ops : List Operand) (d : Decor) (bytes : List By
     | .error e => [⟨false, fun _ => "2 " ++ e⟩]
     | .ok p =>
       headConds r p memOp ++ prefixConds c r p d (implMemOf al) ++ modrmConds r p ++ operandConds c r p 0 al ++
-      tailConds p d memOp (usesVvvv al)
+      tailConds p d memOp (usesVvvv al) (memDestOf al)
 
 /-- The property's predicate for ONE database form (what the theorems are about). -/
 def formOk (c : Ctx) (r : Rule) (ops : List Operand) (d : Decor) (bytes : List Byte) : Bool := allOk (conds c r ops d bytes)
